@@ -237,7 +237,12 @@ class Rec:
             a = self.operand(rv['a'], depth)
             return ('cast', a, rv['ty'], rv['ck'])
         if k == 'bin':
-            return ('bin', rv['op'], self.operand(rv['a'], depth), self.operand(rv['b'], depth))
+            op = rv['op']
+            # ordered comparisons of floating-point operands are marked (FLt, FLe, FGt, FGe): they are partial — `!(a < b)` is not `a >= b`
+            # when an operand is NaN — so a fact taken from the *false* side of such a test must not be turned into the opposite relation
+            if op in ('Lt', 'Le', 'Gt', 'Ge') and rv.get('ty') in ('f32', 'f64'):
+                op = 'F' + op
+            return ('bin', op, self.operand(rv['a'], depth), self.operand(rv['b'], depth))
         if k == 'un':
             op = rv['op']
             a = self.operand(rv['a'], depth)
